@@ -242,7 +242,16 @@ fn run_case(case: &Case, idx: usize, tier: &str, rep: &mut Report) {
     }
     rep.distinct.insert(h128(&a.iter().flat_map(|d| [*d as u64, (*d >> 64) as u64]).collect::<Vec<_>>()));
     if a != a2 {
-        rep.engine_error(format!("same entropy key, different observations in {} {:?}", case.sc.tag, case.hist));
+        // Two runs with the same seed, the same calls AND the same entropy answers differ. Every input the
+        // harness owns was identical (that the harness itself is deterministic is shown by this very
+        // comparison succeeding on every other history and on the unchanged tree), so the planner consulted
+        // something else - the real clock, an address, a global. That is what C07 forbids.
+        let (a3, _) = exec(0xA11CE);
+        let at = a.iter().zip(&a2).position(|(x, y)| x != y).unwrap_or(0);
+        let pk = case.sc.params.pk;
+        rep.violate(format!("C07|{}|nondeterministic-under-identical-inputs", pk.name()), format!("two runs with the same seed, calls and entropy answers differ at call #{at} (a third run {} the first): the result depends on something outside the seed, the problem and the calls", if a3 == a { "agrees with" } else { "differs from" }), || {
+            json!({"kind": "repro", "prop": "C07", "tier": tier, "case_index": idx, "scenario": case.sc.json(), "history": format!("{:?}", case.hist), "first_divergent_call": at, "identical_inputs": true})
+        });
         return;
     }
     if a.contains(&0xdead) || b.contains(&0xdead) {
